@@ -95,11 +95,68 @@ static void runPE(vio::Out & o, const M & m, const Matrix2D & pol, unsigned h, d
     o << var; outV(o, v); outQ(o, q);
 }
 
+static void outLP(vio::Out & o, const std::tuple<double, ValueFunction, QFunction> & res) {
+    o << std::get<0>(res); outV(o, std::get<1>(res).values); o.list(std::get<1>(res).actions); outQ(o, std::get<2>(res));
+}
+
+// One solver object of each kind is reused over a sequence of models (same or different shapes) and
+// over all representations: the answers must depend on the MDP handed in, not on earlier calls.
+static void runSequence(vio::Cursor & c, vio::Out & o) {
+    const size_t k = c.nextSize();
+    const unsigned h = (unsigned) c.nextSize();
+    const double tol = c.nextDouble();
+    const unsigned hpi = (unsigned) c.nextSize();
+    std::vector<double> v0 = c.nextDoubles();
+    ValueFunction start{Values(), Actions(0)};
+    Values startValues;
+    if (!v0.empty()) {
+        start.values = Eigen::Map<const Vector>(v0.data(), v0.size());
+        start.actions = Actions(v0.size(), 0);
+        startValues = start.values;
+    }
+    ValueIteration vi(h, tol, start);
+    PolicyIteration pi(hpi, 0.0);
+    LinearProgramming lp;
+    auto emitVI = [&](const auto & m) {
+        auto [var, vf, q] = vi(m);
+        o << var; outV(o, vf.values); o.list(vf.actions); outQ(o, q);
+    };
+    for (size_t i = 0; i < k; ++i) {
+        const size_t S = c.nextSize(), A = c.nextSize();
+        const double gamma = c.nextDouble();
+        (void) c.nextSize();    // bits per sweep (driver only)
+        T3 t = readT3(c, S, A), r = readT3(c, S, A);
+        Matrix2D pol1(S, A), pol2(S, A);
+        for (size_t s = 0; s < S; ++s) for (size_t a = 0; a < A; ++a) pol1(s, a) = c.nextDouble();
+        for (size_t s = 0; s < S; ++s) for (size_t a = 0; a < A; ++a) pol2(s, a) = c.nextDouble();
+        Model dense(S, A, t, r, gamma);
+        SparseModel sparse(S, A, t, r, gamma);
+        UserModel user(S, A, t, r, gamma);
+        QueryOnly qo(dense);
+        // ValueIteration: the same object on every representation of every model
+        emitVI(dense); emitVI(sparse); emitVI(user); emitVI(qo);
+        // PolicyEvaluation: one object per (model, representation), reused over two policies
+        PolicyEvaluation<Model> peD(dense, h, tol, startValues);
+        PolicyEvaluation<SparseModel> peS(sparse, h, tol, startValues);
+        PolicyEvaluation<UserModel> peU(user, h, tol, startValues);
+        PolicyEvaluation<QueryOnly> peQ(qo, h, tol, startValues);
+        for (const Matrix2D * pm : {&pol1, &pol2}) {
+            Policy p(*pm);
+            auto emitPE = [&](auto & pe) { auto [var, v, q] = pe(p); o << var; outV(o, v); outQ(o, q); };
+            emitPE(peD); emitPE(peS); emitPE(peU); emitPE(peQ);
+        }
+        // PolicyIteration and LinearProgramming: the same objects on the dense and the user model
+        outQ(o, pi(dense)); outQ(o, pi(user));
+        outLP(o, lp(dense)); outLP(o, lp(user));
+    }
+}
+
 int main(int argc, char ** argv) {
     return vio::runCases(argc, argv, [](vio::Cursor & c, vio::Out & o) {
         const std::string kind = c.next();
         const std::string regime = c.next();        // "dy" | "ge" (used by the driver only)
         (void) regime;
+        if (kind == "seq") { runSequence(c, o); return; }
         const size_t S = c.nextSize(), A = c.nextSize();
         const double gamma = c.nextDouble();
         if (kind == "vi" || kind == "pe") {
